@@ -146,3 +146,34 @@ let run (args : (string * string) list) : string =
     if status "ko" = "ok" then sorted "psb" ko g tab_g
   end;
   Buffer.contents res
+
+(* the command-line entry point *)
+let run_cli (args : (string * string) list) : string =
+  let n = get_int args "n" in
+  let g = graph_of (get args "g") in
+  let res = Buffer.create 128 in
+  let add k v = Buffer.add_string res (" " ^ k ^ "=" ^ v) in
+  let prep = get args "prep" and st = get args "st" in
+  if List.length g <> n then add "parse" (fail "graph-length")
+  else if prep <> "ok" then add "cli_prep" (fail prep)
+  else if n = 0 && String.length st >= 4 && String.sub st 0 4 = "err:" then
+    (* the command-line tools cannot load a graph file of zero bytes: an error return (not a
+       panic) on the graph without nodes is a refusal, not a wrong answer *)
+    add "cli_refused" "ok"
+  else if st <> "ok" then add "cli_scc" (fail st)
+  else begin
+    let comp = ints_of_string (get args "comp") and sizes = ints_of_string (get args "sizes") in
+    let k = List.length sizes in
+    let renumber = get_int args "renumber" = 1 in
+    add "cli_scc" (if check_scc g (nats comp) (nat_of_int k) then "ok"
+                   else fail (string_of_ints comp ^ ";k:" ^ string_of_int k));
+    let msz = ints (compute_sizes (nats comp) (nat_of_int k)) in
+    add "cli_sizes" (if msz = sizes && ((not renumber) || non_increasing (nats sizes)) then "ok"
+                     else fail ("sizes:" ^ string_of_ints sizes ^ ";recomputed:" ^ string_of_ints msz));
+    let (mc, mk) = tarjan g in
+    if renumber then
+      add "cli_eq" (if int_of_nat mk = k && same_partitionb mc (nats comp) then "ok" else fail "partition-differs-from-model")
+    else
+      add "cli_eq" (if ints mc = comp && int_of_nat mk = k then "ok" else fail ("model:" ^ string_of_ints (ints mc)))
+  end;
+  Buffer.contents res
